@@ -328,6 +328,32 @@ Theorem C20_fsevents_total :
 Proof. exact fsevents_total. Qed.
 Print Assumptions C20_fsevents_total.
 
+(* _fs_view and the created-and-removed branch: whatever the view held before, an event flagged both
+   created and removed leaves its inode OUT of the view.  This matters when the creation was processed
+   in an earlier batch and the removal repeats the sticky ItemCreated flag (per-item flag coalescing
+   across batch cuts): the branch's discard is the only thing that forgets the inode, and without it a
+   later item that gets the recycled inode number would be taken for "historic" and its creation
+   suppressed (last clause of the example below). *)
+Theorem C20_fsevents_created_removed_forgets :
+  forall stat_ino walk root view e rest,
+  has e F_CREATED = true -> has e F_REMOVED = true ->
+  mem (f_ino e) (snd (fst (fst (process stat_ino walk root view e rest)))) = false.
+Proof. exact created_removed_forgets. Qed.
+Print Assumptions C20_fsevents_created_removed_forgets.
+
+Example C20_fsevents_sticky_created_inode_reuse :
+  let a := abspath r_ [na] in let c := abspath r_ [nc] in
+  let fl l := fold_left N.lor l 0%N in
+  let qe := queue_events (fun _ => None) (fun _ => Node [] []) true r_ in
+  qe [] [FNative a 7 (fl [F_CREATED; F_IS_FILE])]
+    = Some ([Created KFile a false; Modified KDir r_], [7%N], false) /\
+  qe [7%N] [FNative a 7 (fl [F_CREATED; F_MODIFIED; F_REMOVED; F_IS_FILE])]
+    = Some ([Modified KFile a; Deleted KFile a; Modified KDir r_], [], false) /\
+  qe [] [FNative c 7 (fl [F_CREATED; F_IS_FILE])]
+    = Some ([Created KFile c false; Modified KDir r_], [7%N], false) /\
+  qe [7%N] [FNative c 7 (fl [F_CREATED; F_IS_FILE])] = Some ([], [7%N], false).
+Proof. exact sticky_created_inode_reuse. Qed.
+
 (* A moved event is kept when its *destination* is a direct child: it then names its old place, which
    may be deeper.  The strict reading "no path below the direct children is ever mentioned" is false: *)
 Theorem C20_fsevents_flat_strict_refuted :
